@@ -332,11 +332,25 @@ _SOLVE_SITE = "graphiq.solvers.evolutionary_solver:EvolutionarySolver.solve"
 
 
 @S.item("solve.generation_invariants", site=_SOLVE_SITE,
-        bound="targets path2/path3/star4/path4/cycle4 x solvers {evolutionary (1-2 emitters), hybrid} x (n_pop,n_stop,n_hof) in "
-              "{(4,3,2),(8,5,3),(6,4,1)} x selection on/off x adaptive on/off x seeds; stabilizer compiler (+ density-matrix compiler for "
-              "the evolutionary solver), measurement_determinism=1",
+        bound="fixed sample, seed-independent (the ordering clauses can in principle meet known finding C19-G1, update_hof near ties): "
+              "targets path2/path3/star4/path4/cycle4 x solvers {evolutionary (1-2 emitters), hybrid} x (n_pop,n_stop,n_hof) in "
+              "{(4,3,2),(8,5,3),(6,4,1)} x selection on/off x adaptive on/off x solver seeds 0..3 (quick) / 0..15 (thorough); stabilizer "
+              "compiler (+ density-matrix compiler for the evolutionary solver), measurement_determinism=1",
         clause="after every generation: hof ordered, stored score = metric re-evaluated on stored circuit, best never worse; "
                "on exit result = best entry")
+def invariants_fixed_case(cfg):
+    return invariants_case(cfg)
+
+
+@S.item("solve.honest_scores_seeded", site=_SOLVE_SITE,
+        bound="same config grid with VERIF_SEED-dependent solver seeds; only the clauses that known finding C19-G1 cannot touch are "
+              "demanded (config carries \"order\": false): entries are (score, circuit) with score = metric re-evaluated on the "
+              "stored circuit after every generation, hall-of-fame size, result is an entry of the hall of fame",
+        clause="each entry's stored score equals the metric re-evaluated on its stored circuit (seeded exploration)")
+def invariants_seeded_case(cfg):
+    return invariants_case(cfg)
+
+
 def invariants_case(cfg):
     solver = make_solver(cfg)
     snaps = []  # per generation: [(score, circuit object, private copy)]
@@ -352,15 +366,17 @@ def invariants_case(cfg):
     if len(snaps) != cfg["n_stop"]:
         return f"update_hof ran {len(snaps)} times for {cfg['n_stop']} generations"
     prev_best = float("inf")
+    order = cfg.get("order", True)
     for g, snap in enumerate(snaps):
         scores = [s for s, _, _ in snap]
         if len(snap) != cfg["n_hof"]:
             return f"generation {g}: hall of fame has {len(snap)} entries, expected {cfg['n_hof']}"
-        for i in range(len(scores) - 1):
-            if not scores[i] <= scores[i + 1]:
-                return f"generation {g}: hall of fame not ordered: {[repr(x) for x in scores]}"
-        if not scores[0] <= prev_best:
-            return f"generation {g}: best score got worse: {prev_best!r} -> {scores[0]!r}"
+        if order:
+            for i in range(len(scores) - 1):
+                if not scores[i] <= scores[i + 1]:
+                    return f"generation {g}: hall of fame not ordered: {[repr(x) for x in scores]}"
+            if not scores[0] <= prev_best:
+                return f"generation {g}: best score got worse: {prev_best!r} -> {scores[0]!r}"
         prev_best = scores[0]
         for i, (s, c, cp) in enumerate(snap):
             if cp is None:
@@ -380,6 +396,8 @@ def invariants_case(cfg):
                 return f"final entry {i} stores score {float(s)!r} but its circuit evaluates to {re!r}"
     if solver.result is None or not any(solver.result[1] is c and float(solver.result[0]) == float(s) for s, c in solver.hof):
         return "result is not an entry (score, circuit) of the hall of fame"
+    if not order:
+        return None
     best = min(float(s) for s, _ in solver.hof)
     if float(solver.result[0]) != best:
         return f"result score {float(solver.result[0])!r} is not the best entry {best!r}"
@@ -391,8 +409,8 @@ def invariants_case(cfg):
 
 
 @S.item("solve.reproducible_same_process", site="graphiq.solvers.solver_base:SolverBase.seed",
-        bound="same config grid as solve.generation_invariants (fewer seeds): two runs with the same seed in one process, a run "
-              "with another seed in between",
+        bound="same config grid as solve.generation_invariants with VERIF_SEED-dependent solver seeds (no known finding can show "
+              "within one process): two runs with the same seed in one process, a run with another seed in between",
         clause="fixed seed => same hall of fame (scores, circuits), same result")
 def repro_case(cfg):
     a = run_digest(cfg)
@@ -433,8 +451,10 @@ def _bulk(args):
 
 
 @S.item("solve.reproducible_across_hashseeds", site="graphiq.solvers.solver_base:SolverBase.seed",
-        bound="targets path3, cycle4 x solvers {evolutionary with 1 and 2 emitters, hybrid} x (n_pop,n_stop,n_hof) in {(4,3,2),(8,5,3),(6,4,1)} "
-              "x (selection, adaptive) in {off/off, on/on} x seeds: the same config in two fresh interpreters with PYTHONHASHSEED=1 and 2",
+        bound="fixed sample, seed-independent (touches known finding C19-G2, set iteration order reaches a random index): targets "
+              "path3, cycle4 x solvers {evolutionary with 1 and 2 emitters, hybrid} x (n_pop,n_stop,n_hof) in {(4,3,2),(8,5,3),(6,4,1)} "
+              "x (selection, adaptive) in {off/off, on/on} x solver seeds 0,1 (quick) / 0..5 (thorough): the same config in two fresh "
+              "interpreters with PYTHONHASHSEED=1 and 2",
         clause="fixed seed => same hall of fame, whatever the interpreter's hash seed (set iteration order must not reach a random index)")
 def repro_proc_case(cfg):
     res = []
@@ -450,6 +470,15 @@ def repro_proc_case(cfg):
     if d:
         return f"PYTHONHASHSEED=1 and 2 give different results for seed {cfg['seed']}: {d}"
     return None
+
+
+@S.item("solve.reproducible_across_hashseeds_single_emitter", site="graphiq.solvers.solver_base:SolverBase.seed",
+        bound="evolutionary solver with ONE emitter only (its moves never call _select_possible_cnot_position / "
+              "_select_possible_measurement_position, the two sites of known finding C19-G2), all five targets x the three settings x "
+              "selection/adaptive off/off, on/on x VERIF_SEED-dependent solver seeds; PYTHONHASHSEED=1 and 2",
+        clause="fixed seed => same hall of fame, whatever the interpreter's hash seed (seeded exploration)")
+def repro_proc_single_case(cfg):
+    return repro_proc_case(cfg)
 
 
 # ------------------------------------------------------------------------------------------------ domains
@@ -474,34 +503,53 @@ def configs(seeds, with_dm):
     return out
 
 
+def hashseed_fixed_configs(thorough):
+    return [c for c in configs(list(range(6 if thorough else 2)), with_dm=False)
+            if c["target"] in ("path3", "cycle4") and c["sel"] == c["adapt"]]
+
+
+def _prefetch(item, cfgs):
+    """run every config once per hash seed in bulk (a few subprocesses) and cache the digests for the per-config checker"""
+    import multiprocessing.pool as mpp
+    import time
+
+    procs = int(os.environ.get("VERIF_PROCS", "16"))
+    nb = max(1, min(len(cfgs), procs))
+    jobs = [(cfgs[i::nb], h) for i in range(nb) for h in (1, 2)]
+    t0 = time.time()
+    with mpp.ThreadPool(procs) as tp:
+        outs = tp.map(_bulk, jobs)
+    S.items[item].wall_s += time.time() - t0
+    for (cs, h), out in zip(jobs, outs):
+        for i, c in enumerate(cs):
+            _PROC_CACHE[(_ck(c), h)] = out if isinstance(out, str) else out[i]
+
+
 def run(tier, seed):
     thorough = tier == "thorough"
-    base = seed * 100
+    base = 1000 + seed * 100  # VERIF_SEED-dependent solver seeds start at 1000: disjoint from the fixed samples
     S.map("update_hof.contract_grid", grid_cases())
     S.map("update_hof.near_ties", NEAR_TIES)
     S.map("tournament_selection.contract",
           [{"n_pop": n, "k": k, "seed": base + s} for n in (4, 6) for k in (0, 1, 2, 3) for s in range(40 if thorough else 10)])
-    inv = configs([base + s for s in range(24 if thorough else 5)], with_dm=True)
-    S.map("solve.generation_invariants", inv, chunksize=4)
-    rep = configs([base + s for s in range(8 if thorough else 2)], with_dm=True)
-    S.map("solve.reproducible_same_process", rep, chunksize=4)
-    hs = [c for c in configs([base + s for s in range(6 if thorough else 2)], with_dm=False)
-          if c["target"] in ("path3", "cycle4") and c["sel"] == c["adapt"]]
-    procs = int(os.environ.get("VERIF_PROCS", "16"))
-    nb = max(1, min(len(hs), procs))
-    jobs = [(hs[i::nb], h) for i in range(nb) for h in (1, 2)]
-    import multiprocessing.pool as mpp
-    import time
-    t0 = time.time()
-    with mpp.ThreadPool(procs) as tp:
-        outs = tp.map(_bulk, jobs)
-    S.items["solve.reproducible_across_hashseeds"].wall_s += time.time() - t0
-    for (cfgs, h), out in zip(jobs, outs):
-        for i, c in enumerate(cfgs):
-            _PROC_CACHE[(_ck(c), h)] = out if isinstance(out, str) else out[i]
+    # fixed samples (independent of VERIF_SEED; quick is a prefix-by-seed subset of thorough)
+    S.map("solve.generation_invariants", configs(list(range(16 if thorough else 4)), with_dm=True), chunksize=4)
+    hs = hashseed_fixed_configs(thorough)
+    _prefetch("solve.reproducible_across_hashseeds", hs)
     S.map("solve.reproducible_across_hashseeds", hs, procs=1)
+    # seeded exploration on domains the known findings cannot reach
+    hon = [dict(c, order=False) for c in configs([base + s for s in range(4 if thorough else 1)], with_dm=True)]
+    S.map("solve.honest_scores_seeded", hon, chunksize=4)
+    rep = configs([base + s for s in range(6 if thorough else 1)], with_dm=True)
+    S.map("solve.reproducible_same_process", rep, chunksize=4)
+    single = [c for c in configs([base + s for s in range(4 if thorough else 1)], with_dm=False)
+              if c["solver"] == "evo" and c["ne"] == 1 and c["sel"] == c["adapt"]]
+    _prefetch("solve.reproducible_across_hashseeds_single_emitter", single)
+    S.map("solve.reproducible_across_hashseeds_single_emitter", single, procs=1)
     S.note("hybrid solver is driven with a stabilizer target only: with a density-matrix target TimeReversedSolver.__init__ converts the "
            "caller's target in place (C13) and Infidelity.evaluate then raises UnboundLocalError - not a C19 clause")
     S.note("'stored score = metric re-evaluated' uses solve()'s own pipeline (compile, trace out emitters, metric.evaluate) with the "
            "solver's compiler, measurement_determinism=1; the probabilistic mode is excluded (a statement about one draw)")
+    S.note("solve.reproducible_same_process is seeded: within one process neither known finding can show (G2 needs two hash seeds, "
+           "G1 does not affect reproducibility)")
     return S
